@@ -94,6 +94,54 @@ def corner_cell_probes(run, rng, face, count):
     return probes
 
 
+SPECIAL = (0.5, 0.5, 0.5, 0.25, 0.75, 1.0 / 3.0, 2.0 / 3.0, 0.125, 0.2, 0.4, 0.6, 0.8, 0.9, 0.1)
+
+
+def targeted_points(run, rng, count):
+    """face points at which an INTERNAL parameter of the inverse projection - q, the position of the foot point on the far edge of the
+    triangle, or t, the fraction of the way from the apex - takes a 'round' value (1/2 above all, 1/4, 1/3, ...) up to an offset of
+    0 .. 1e-8: found by bisection against the model's own q(point), t(point) (`inverse_qt`, model only).  A special case keyed on such
+    a value (a snap, a shortcut for the bisector) occupies a band of measure ~1e-9 of the face that no random probe ever meets."""
+    tg = []
+    for _ in range(count):
+        o = rng.randrange(12)
+        idx = rng.randrange(10)
+        kind = rng.choice("qqt")
+        v = rng.choice(SPECIAL) + rng.choice([0.0, 0.0, 1.0, -1.0]) * 10 ** rng.uniform(-13, -8)
+        lo_g, hi_g = idx * math.pi / 5 + 1e-6, (idx + 1) * math.pi / 5 - 1e-6
+        tg.append({"o": o, "kind": kind, "v": v, "g": rng.uniform(lo_g, hi_g), "rho": rng.uniform(0.05, 0.55), "lo": lo_g, "hi": hi_g})
+    def ask(pts):
+        out = core.run_driver([f"inverse_qt {geo.hx(r * math.cos(g))} {geo.hx(r * math.sin(g))} {o}" for (r, g, o) in pts])
+        return [(geo.fx(a.split()[1]), geo.fx(a.split()[2])) if a.startswith("ok ") else (float("nan"), float("nan")) for a in out]
+    # orientation of q along the angle in each target's sector
+    ends = ask([(t["rho"], t["lo"], t["o"]) for t in tg] + [(t["rho"], t["hi"], t["o"]) for t in tg])
+    for i, t in enumerate(tg):
+        t["up"] = ends[len(tg) + i][0] > ends[i][0]
+        if t["kind"] == "t":
+            seg = t["g"] / (2 * math.pi / 5); beta = (seg - round(seg)) * (2 * math.pi / 5)
+            t["lo"], t["hi"] = 1e-4, 0.999 * D_EDGE / math.cos(beta)
+    for _ in range(64):
+        mids = [0.5 * (t["lo"] + t["hi"]) for t in tg]
+        vals = ask([(t["rho"], m, t["o"]) if t["kind"] == "q" else (m, t["g"], t["o"]) for t, m in zip(tg, mids)])
+        for t, m, (q, tt) in zip(tg, mids, vals):
+            cur = q if t["kind"] == "q" else tt
+            below = cur < t["v"]
+            if t["kind"] == "q" and not t["up"]:
+                below = not below
+            if below:
+                t["lo"] = m
+            else:
+                t["hi"] = m
+    pts = []
+    for t in tg:
+        m = 0.5 * (t["lo"] + t["hi"])
+        r, g = (t["rho"], m) if t["kind"] == "q" else (m, t["g"])
+        pts.append((r * math.cos(g), r * math.sin(g), t["o"], t["kind"], t["v"]))
+    chk = ask([(math.hypot(x, y), math.atan2(y, x), o) for (x, y, o, _, _) in pts])
+    good = [p for p, (q, tt) in zip(pts, chk) if abs((q if p[3] == "q" else tt) - p[4]) < 1e-9]
+    return good
+
+
 def run(run):
     rng = run.rng
     run.do_ties()
@@ -158,6 +206,16 @@ def run(run):
                 continue
         # keep a margin to the seams so that rounding cannot move a vertex across
         probes.append((tri, rng.randrange(12), size, secs.pop()))
+    # probes (tiny: 3e-9 .. 1e-6) centred on points where an internal parameter of the inverse takes a round value
+    tpts = targeted_points(run, rng, run.n(60, 1200))
+    run.extra["targeted_internal_parameter_points"] = len(tpts)
+    for (x0, y0, o, kind, v) in tpts:
+        size = 10 ** rng.uniform(-8.5, -6)
+        a = rng.uniform(0, 2 * math.pi)
+        tri = [(x0 + size * math.cos(a + k * 2 * math.pi / 3 + (0.3 if k == 1 else 0)), y0 + size * math.sin(a + k * 2 * math.pi / 3 + (0.3 if k == 1 else 0))) for k in range(3)]
+        secs = {sector(x, y) for x, y in tri + [(x0, y0)]}
+        if len(secs) == 1 and not list(secs)[0][1]:
+            probes.append((tri, o, size, secs.pop()))
     # probes inside the part of real cells that hangs over a face edge or corner ("the margin beyond a face edge that cells
     # reach into"): cells around the 5 x 12 face corners and edge midpoints at r = 2..5, their rings pulled back into the
     # plane of their own face, probe triangles inside the overhanging part
@@ -195,6 +253,17 @@ def run(run):
         for (x, y) in outline(tri, M):
             reqs.append(f"dodeca_inverse {geo.hx(x)} {geo.hx(y)} {o}")
     impl, model = core.both(run, reqs, "dodeca_inverse", timeout=3000)
+    treqs = [f"dodeca_inverse {geo.hx(x)} {geo.hx(y)} {o}" for (x, y, o, _, _) in tpts]
+    if treqs:
+        timpl, _ = core.both(run, treqs, "dodeca_inverse at round values of its internal parameters")
+        # ... and locally one-to-one: two face points 1e-10 apart across the targeted value must not land on the same sphere point
+        nreq = [f"dodeca_inverse {geo.hx(x * (1 + 1e-10) - y * 1e-10)} {geo.hx(y * (1 + 1e-10) + x * 1e-10)} {o}" for (x, y, o, _, _) in tpts]
+        nimpl, _ = core.both(run, nreq, "dodeca_inverse next to round values", reorder=False)
+        for q1, q2, a1, a2, tp in zip(treqs, nreq, timpl, nimpl, tpts):
+            run.evaluations += 1
+            if a1.startswith("ok ") and a1 == a2:
+                run.violation(f"two different face points (1.4e-10 apart, where the inverse's internal parameter {tp[3]} is {tp[4]!r}) are sent to the same point of the sphere: the map collapses area there",
+                              [q1, q2], a1)
     worst = 0.0
     hist = {}
     P = 3 * M
@@ -231,6 +300,7 @@ def run(run):
                           reqs[P * k: P * k + 3], str(impl[P * k: P * k + 3]))
     run.rule = ("probe triangles (random orientation, size 1e-6..1e-3, not straddling a seam) in every sector of every face: 8% at 1e-10..3e-4 from the face centre with size 1/64..1/6 of that distance (small-angle branch of the inverse), 27% anywhere out to 1.3 x distance-to-edge, 25% on either side of the ten internal seams, "
                 "20% on either side of the face edge incl. the reflected margin, 10% at the face centre, 10% at the pentagon vertices; spherical area of the unprojected outline (12 points per edge, 60 when the first measurement exceeds 2e-5; tangent-plane shoelace) vs planar area x 4*pi/(12*F); "
+                "plus tiny probes (3e-9..1e-6) centred on face points where an internal parameter of the inverse (edge position q, radial fraction t) is within 0..1e-8 of 1/2, 1/4, 1/3, ... (found by bisection against the model), those points themselves through the correspondence, and a one-to-one test across them; "
                 "plus probe triangles inside the overhanging parts (beyond a face edge or corner) of real cells of r = 2..5 around all face corners and edge midpoints; non-trivial = distinct probes measured")
     run.samples = [{"request": reqs[3 * M * k], "impl": impl[3 * M * k]} for k in rng.sample(range(len(probes)), 4)]
     run.extra["worst_relative_distortion"] = worst
